@@ -98,8 +98,18 @@ def r2_per_block_lists(idx, r):
     chk = ab.methods["_checkParamConsistency"]
     d = next((s.value for s in iter_stores(chk.node) if s.attr == "paramsToCheck" and isinstance(s.value, ast.Dict)), None)
     checked = {norm(v) for v in d.values} if d is not None else set()
-    mm = any("self.materialModifications.items()" in norm(n.iter) for n in walk_local(chk.node) if isinstance(n, ast.For))
-    mmc = any("self.materialModifications.byComponent.values()" in norm(n.iter) for n in walk_local(chk.node) if isinstance(n, ast.For))
+    def _loops_over(attr_chain):
+        """a for-loop whose iterable is <attr_chain>.items() / .values() / the mapping itself, with an inner store into paramsToCheck"""
+        for n in walk_local(chk.node):
+            if isinstance(n, ast.For):
+                it = n.iter
+                if isinstance(it, ast.Call) and isinstance(it.func, ast.Attribute) and it.func.attr in ("items", "values") and not it.args:
+                    it = it.func.value
+                if dotted(it) == attr_chain and any(isinstance(x, ast.Assign) and "paramsToCheck" in norm(x.targets[0]) for x in ast.walk(n)):
+                    return True
+        return False
+    mm = _loops_over("self.materialModifications")
+    mmc = _loops_over("self.materialModifications.byComponent")
     n = 0
     for meth in ("_createBlock", "_constructAssembly"):
         f = ab.methods[meth]
@@ -115,6 +125,31 @@ def r2_per_block_lists(idx, r):
                     r.undecided(f"{meth}:{src}[axialIndex]", f, "indexed object is not an attribute of the blueprint", node=x)
     if n < 4:
         raise AnalysisError("per-block indexing sites not found")
+    # no list may drop out of the check through a key collision: a key written inside nested loops names a variable of EVERY enclosing loop
+    par = {}
+    for nd in ast.walk(chk.node):
+        for ch in ast.iter_child_nodes(nd):
+            par[ch] = nd
+    for st in walk_local(chk.node):
+        if isinstance(st, ast.Assign) and len(st.targets) == 1 and isinstance(st.targets[0], ast.Subscript) and norm(st.targets[0].value) == "paramsToCheck":
+            key = propagate(st.targets[0].slice, single_assign_env(chk.node)) if isinstance(st.targets[0].slice, ast.Name) else st.targets[0].slice
+            # the key may be a local assigned just before, inside the same loop body
+            if isinstance(st.targets[0].slice, ast.Name):
+                body = getattr(par.get(st), "body", [])
+                prev = [x for x in body[: body.index(st)] if isinstance(x, ast.Assign) and norm(x.targets[0]) == st.targets[0].slice.id] if st in body else []
+                if prev:
+                    key = prev[-1].value
+            knames = {x.id for x in ast.walk(key) if isinstance(x, ast.Name)}
+            loops, nd = [], st
+            while nd in par:
+                nd = par[nd]
+                if isinstance(nd, ast.For):
+                    loops.append(nd)
+            for lp_ in loops:
+                tn = {x.id for x in ast.walk(lp_.target) if isinstance(x, ast.Name)}
+                r.require(bool(tn & knames), f"check:key-distinguishes:{norm(lp_.iter)[:50]}", chk, node=st,
+                          msg=f"entries are stored under `{norm(key)[:60]}`, which names nothing of the enclosing loop over `{norm(lp_.iter)[:50]}`: lists of two components with the "
+                              "same modification name share one key, the later one overwrites the earlier and a list of the wrong length escapes the check")
     lp = next((x for x in chk.node.body if isinstance(x, ast.For) and norm(x.iter) == "paramsToCheck.items()"), None)
     ok = lp is not None and any(isinstance(s, ast.If) and norm(s.test) == "len(self.blocks) != len(blockVals)" and always_exits(s.body) and any(isinstance(y, ast.Raise) for y in s.body) for s in lp.body)
     r.require(ok, "check:unequal-length-raises", chk, msg="a list whose length differs from the number of blocks must raise")
@@ -180,6 +215,109 @@ def r3_centring_and_copies(idx, r):
     r.require(any(s.kind == "subscript" and s.chain == "kwargs" and norm(s.node.slice) == "attr.name" and norm(s.value) == "value" for s in iter_stores(ck.node)), "conformKwargs:forwards", ck, msg="forwarded under the attribute's own name")
 
 
+def r4_drawing_verified(idx, r):
+    """'indexed contents are either drawn as text that reads back to them or refused, never drawn incompletely':
+    the dimensions of a map drawn from pure data are guessed from the data and do not fit every arrangement, so the
+    drawing path must END in a verification against asciiLabelByIndices that raises on a mismatch."""
+    am = idx.cls("armi.utils.asciimaps.AsciiMap")
+    f = am.methods.get("gridContentsToAscii") if am is not None else None
+    if f is None:
+        raise AnchorMissing("AsciiMap.gridContentsToAscii")
+
+    def verifies(g, depth=0):
+        """g raises under a comparison that involves the data (directly or via locals built from it)"""
+        tainted = {"asciiLabelByIndices"}
+        for _ in range(3):
+            for st in walk_local(g.node):
+                if isinstance(st, ast.Assign) and any(isinstance(n, (ast.Attribute, ast.Name)) and (getattr(n, "attr", None) in tainted or getattr(n, "id", None) in tainted) for n in ast.walk(st.value)):
+                    for t in st.targets:
+                        if isinstance(t, ast.Name):
+                            tainted.add(t.id)
+        for n in walk_local(g.node):
+            if isinstance(n, ast.If) and any(isinstance(x, ast.Raise) for x in n.body):
+                names = {getattr(x, "attr", None) or getattr(x, "id", None) for x in ast.walk(n.test) if isinstance(x, (ast.Attribute, ast.Name))}
+                if names & tainted:
+                    return True
+        return False
+
+    def ev(n):
+        if isinstance(n, ast.Call) and isinstance(n.func, ast.Attribute) and dotted(n.func.value) == "self":
+            g = am.resolve(n.func.attr)
+            if g is not None and verifies(g):
+                return ["verified"]
+        return []
+    own = verifies(f)
+    fl = Flow(f.node, ev).run()
+    bad = [e for e in fl.normal_exits() if e.state.get("verified", (0, 0))[0] < 1]
+    r.require(own or not bad, "from-data-drawing:verified-before-return", f,
+              msg="gridContentsToAscii can return without comparing what it drew with asciiLabelByIndices: arrangements its guessed dimensions do not fit "
+                  "(negative Cartesian indices, unevenly trimmed hex corners) are drawn incompletely or shifted instead of being refused")
+    # subclasses that override the drawing path must keep the verification
+    for c in idx.subclasses(am):
+        g = c.methods.get("gridContentsToAscii")
+        if g is None or ".tests" in c.module.name:
+            continue
+        sup = any(isinstance(x, ast.Call) and isinstance(x.func, ast.Attribute) and x.func.attr == "gridContentsToAscii" and isinstance(x.func.value, ast.Call) and dotted(x.func.value.func) == "super" for x in ast.walk(g.node))
+        flc = Flow(g.node, ev).run()
+        okc = sup or verifies(g) or not [e for e in flc.normal_exits() if e.state.get("verified", (0, 0))[0] < 1]
+        r.require(okc, f"{c.name}.gridContentsToAscii:keeps-verification", g, msg="an overriding drawing path drops the verification against the data")
+
+
+def r5_modification_selection(idx, r):
+    """'composition after the requested material modifications': a modification entry is left out only when it is
+    absent ('' or None - the documented rule, one helper). Every selection of per-block entries, block-wide and by
+    component alike, must filter through that helper; a truthiness filter silently drops a requested value of 0."""
+    f = idx.method("armi.reactor.blueprints.assemblyBlueprint.AssemblyBlueprint", "_createBlock")
+    h = idx.method("armi.reactor.blueprints.assemblyBlueprint.AssemblyBlueprint", "_shouldMaterialModiferBeApplied")
+    if f is None or h is None:
+        raise AnchorMissing("AssemblyBlueprint._createBlock / _shouldMaterialModiferBeApplied")
+    rets = [x for x in walk_local(h.node) if isinstance(x, ast.Return) and x.value is not None]
+    txt = norm(rets[0].value) if len(rets) == 1 else ""
+    r.require("is not None" in txt and "!= ''" in txt and "0" not in txt.replace("''", ""), "helper:only-absent-entries-skipped", h, node=rets[0] if rets else h.node,
+              msg=f"the helper must reject exactly '' and None: `{txt}`")
+    idxname = f.params()[-1]
+    comps = [n for n in ast.walk(f.node) if isinstance(n, ast.DictComp) and isinstance(n.value, ast.Subscript) and norm(n.value.slice) == idxname]
+    if not comps:
+        raise AnchorMissing("_createBlock: selection of per-block modification entries")
+    for i, c in enumerate(comps):
+        ifs = c.generators[0].ifs
+        ok = len(ifs) == 1 and isinstance(ifs[0], ast.Call) and call_attr(ifs[0]) == h.name and len(ifs[0].args) == 1 and norm(ifs[0].args[0]) == norm(c.value)
+        r.require(ok, f"selection#{i}:{norm(c.generators[0].iter)[:40]}", f, node=c,
+                  msg=f"entries of `{norm(c.generators[0].iter)[:40]}` are selected by `{' and '.join(norm(x) for x in ifs) or 'no filter'}` instead of "
+                      f"{h.name}(entry): a requested modification of 0 / 0.0 is dropped (or an absent one applied)")
+
+
+def r6_override_order(idx, r):
+    """'composition after the requested material modifications and isotopic overrides': the custom isotopic vector is
+    the component's base composition and the material modifications are applied to it - the override must not come
+    after the modifications (it would erase them), and both come before elemental expansion."""
+    f = idx.method("armi.reactor.blueprints.componentBlueprint.ComponentBlueprint", "_constructMaterial")
+    if f is None:
+        raise AnchorMissing("ComponentBlueprint._constructMaterial")
+
+    def ev(n):
+        if isinstance(n, ast.Call):
+            d = dotted(n.func) or ""
+            if d.endswith("customIsotopics.apply"):
+                return ["override"]
+            if call_attr(n) == "applyInputParams":
+                return ["mods"]
+            if d.split(".")[-1] == "expandElementals":
+                return ["expand"]
+        return []
+    fl = Flow(f.node, ev).run()
+    ov = [c for c in iter_calls(f.node) if ev(c) == ["override"]]
+    md = [c for c in iter_calls(f.node) if ev(c) == ["mods"]]
+    ex = [c for c in iter_calls(f.node) if ev(c) == ["expand"]]
+    if not ov or not md or not ex:
+        raise AnchorMissing("_constructMaterial: customIsotopics.apply / applyInputParams / expandElementals")
+    for c in ov:
+        st = fl.state_before(c) or {}
+        r.require(st.get("mods", (0, 0))[1] == 0, "override-before-modifications", f, node=c,
+                  msg="the custom isotopic vector is applied AFTER the material modifications: it overwrites the composition they produced, so requested enrichment / alloy modifications are lost")
+        r.require(st.get("expand", (0, 0))[1] == 0, "override-before-expansion", f, node=c, msg="custom isotopics must be applied before elementals are expanded")
+
+
 def run(idx, chk):
     chk.explanation = (
         "C18 is a relation between an input document and an object graph; static analysis claims only: (1) each lattice-map class reads and "
@@ -194,3 +332,9 @@ def run(idx, chk):
     chk.run_rule("R18.2", "every per-block list is length-checked, the check dominates construction, block k uses entry k", lambda r: r2_per_block_lists(idx, r), floor=8, necessary="lists of unequal length are refused; blocks have the specified order/heights/xs types")
     chk.run_rule("R18.3", "lattice centring per axis; blueprint containers copied into the model; component attributes forwarded", lambda r: r3_centring_and_copies(idx, r), floor=7,
                  necessary="every location named in the map holds the specified design; construction does not rewrite its own input")
+    chk.run_rule("R18.4", "a map drawn from indexed data is verified against that data before it is handed out (else refused)", lambda r: r4_drawing_verified(idx, r), floor=1,
+                 necessary="'either drawn as text that reads back to them or refused, never drawn incompletely'")
+    chk.run_rule("R18.5", "per-block material-modification entries are selected through the one helper that skips only '' and None", lambda r: r5_modification_selection(idx, r), floor=2,
+                 necessary="'composition after the requested material modifications'")
+    chk.run_rule("R18.6", "custom isotopics are applied before the material modifications, both before elemental expansion", lambda r: r6_override_order(idx, r), floor=2,
+                 necessary="'composition after the requested material modifications and isotopic overrides'")
